@@ -29,13 +29,17 @@ def raw_elem(s, c, name="RAW"):
     return SInt(f(larr._int_term(s), larr._int_term(c)))
 
 
+_SERIAL = [0]
+
+
 class Cbin:
     """content of a compressed file: refers to what it was compressed from"""
 
-    def __init__(self, source, complete, shape):
+    def __init__(self, source, complete, shape, serial=None):
         self.source = source
         self.complete = complete
         self.shape = shape
+        self.serial = serial          # which compression run wrote the stream: its .ch header (chunk table) carries the same number
 
     def __repr__(self):
         return f"Cbin(complete={self.complete})"
@@ -106,10 +110,16 @@ class MtsReader:
         f = fs().get(str(cdata))
         if f is None or not builtins.bool(f.exists):
             raise FileNotFoundError(str(cdata))
-        m = fs().get(str(cmeta)) if cmeta is not None else None
-        if cmeta is not None and (m is None or not builtins.bool(m.exists)):
-            raise FileNotFoundError(str(cmeta))
+        if isinstance(cmeta, dict):
+            hdr = cmeta                   # mtscomp also accepts the parsed header itself
+        else:
+            m = fs().get(str(cmeta)) if cmeta is not None else None
+            if cmeta is not None and (m is None or not builtins.bool(m.exists)):
+                raise FileNotFoundError(str(cmeta))
+            hdr = m.content if m is not None else None
         c = f.content
+        if isinstance(c, Cbin) and isinstance(hdr, dict) and c.serial is not None and hdr.get("serial") is not None and hdr["serial"] != c.serial:
+            raise ValueError("the compression header (chunk table) belongs to another compression run of this file")
         if not isinstance(c, Cbin):
             raise Unsupported("mtscomp stub opened something that is not a compressed file")
         if not c.complete:
@@ -156,14 +166,16 @@ class Mts:
         o = F.files.setdefault(str(out), fakefs.File(False))
         F.mutate("create", str(out), by="mtscomp.compress")
         o.exists, o.size = True, 0
-        o.content = Cbin(src.content, False, (nrows, n_channels))
+        _SERIAL[0] += 1
+        serial = _SERIAL[0]
+        o.content = Cbin(src.content, False, (nrows, n_channels), serial)
         for k in range(N_CHUNKS):
             F.mutate("write_chunk", str(out), chunk=k, by="mtscomp.compress")
             o.size = o.size + 7
-        o.content = Cbin(src.content, True, (nrows, n_channels))
+        o.content = Cbin(src.content, True, (nrows, n_channels), serial)
         m = F.files.setdefault(str(outmeta), fakefs.File(False))
         F.mutate("create", str(outmeta), by="mtscomp.compress")
-        m.exists, m.size, m.content = True, 11, {"ch_for": str(out)}
+        m.exists, m.size, m.content = True, 11, {"ch_for": str(out), "serial": serial}
         if check_after_compress:
             F.mutate("check", str(out), by="mtscomp.compress")
         return 1.0
